@@ -31,7 +31,7 @@ TOL = symfam.TOL
 
 
 def floors(tier):
-    return {NAME: 1500 if tier == "quick" else 6000}
+    return {NAME: 1500 if tier == "quick" else 12000}
 
 
 def worker_init(lane):
@@ -40,11 +40,11 @@ def worker_init(lane):
 
 def gen_cases(tier, seed):
     ss = np.random.SeedSequence([seed, 8])
-    draws = 1 if tier == "quick" else 4
+    draws = 1 if tier == "quick" else 8
     cases = []
     for no, child in zip(range(1, 231), ss.spawn(230)):
         cases.append({"kind": "cells", "group_no": no, "seed": int(child.generate_state(1)[0]), "draws": draws})
-    fam = symfam.gen_cases(tier, seed, 8, per_group=0, n_pres=2, extra_random=100 if tier == "quick" else 1500)
+    fam = symfam.gen_cases(tier, seed, 8, per_group=0, n_pres=2, extra_random=100 if tier == "quick" else 3000)
     for c in fam:
         c["kind"] = "family"
     layers = [{"kind": "layer2d", "seed": int(ch.generate_state(1)[0])} for ch in ss.spawn(20 if tier == "quick" else 200)]
